@@ -156,7 +156,7 @@ pub fn long_replays(quick: bool) -> Vec<AbsReplay> {
 pub fn universe(quick: bool) -> Vec<AbsReplay> {
 	use crate::ubj::MVal;
 	let versions: Vec<(u8, u8)> = if quick { vec![(0, 1), (1, 0), (2, 0), (2, 2), (3, 0), (3, 6), (3, 13), (3, 16)] } else { spec::v_rep() };
-	let port_shapes: Vec<Vec<PortCfg>> = vec![vec![pc(0, false)], vec![pc(0, true), pc(2, false)], vec![pc(1, false), PortCfg { port: 2, ics: false, ptype: 2 }, PortCfg { port: 3, ics: true, ptype: 1 }]];
+	let port_shapes: Vec<Vec<PortCfg>> = vec![vec![pc(0, false)], vec![pc(0, true), pc(2, false)], vec![pc(1, false), PortCfg { port: 2, ics: false, ptype: 2 }, PortCfg { port: 3, ics: true, ptype: 1 }], vec![]];
 	let intl: crate::ubj::Meta = vec![("プレイヤー".into(), MVal::Str("ピーチ姫 é".into())), ("n".into(), MVal::Map(vec![("k".into(), MVal::Int(-7))]))];
 	let metas: Vec<Option<crate::ubj::Meta>> = vec![Some(default_meta()), None, Some(vec![]), Some(intl)];
 	let mut out = vec![];
@@ -166,14 +166,19 @@ pub fn universe(quick: bool) -> Vec<AbsReplay> {
 		for ports in &port_shapes {
 			for shape in 0..4usize {
 				// frame-history shapes
+				if ports.is_empty() && regime == 0 && shape != 0 {
+					continue; // no players and no Frame Start: nothing can make a frame
+				}
 				let mut a = base_replay(*v, ports.clone(), [0usize, 1, 3, 2][shape]);
 				match shape {
 					2 => {
 						// absence of a leader, then back; rollback; items
-						let last = ports.len() - 1;
-						a.frames[1].present[last][0] = false;
-						if ports[0].ics {
-							a.frames[0].present[0][1] = false;
+						if !ports.is_empty() {
+							let last = ports.len() - 1;
+							a.frames[1].present[last][0] = false;
+							if ports[0].ics {
+								a.frames[0].present[0][1] = false;
+							}
 						}
 						if regime >= 1 {
 							a.frames[2].id = -123;
@@ -191,7 +196,7 @@ pub fn universe(quick: bool) -> Vec<AbsReplay> {
 							}
 							a.frames[1].present[pi] = [false, false];
 						}
-						if regime == 0 && ports[0].ics {
+						if regime == 0 && !ports.is_empty() && ports[0].ics {
 							a.frames[1].present[0][1] = true; // a frame needs an event before 2.2: Nana alone
 						}
 					}
